@@ -1049,7 +1049,7 @@ def eqRaises (a b : Val) : Option Bool :=
     | .list ys => if xs.length != ys.length then some false else eqRaisesL xs ys
     | _ => some false
   | .tuple xs => match b with
-    | .tuple ys => if xs.length != ys.length then some false else eqRaisesL xs ys
+    | .tuple ys => eqRaisesL xs ys   -- tuples have no length shortcut: the common prefix is compared first
     | _ => some false
   | .dict kvs => match b with
     | .dict kvs' => if hasSNaNKV kvs || hasSNaNKV kvs' then Option.none else some false
